@@ -76,6 +76,20 @@ let handle (pl : string) : string =
     let ns = List.length (List.filter (fun c -> c >= 1000) sc) in
     (* the real saver callbacks cannot report to the harness: their effect is observed through the file (outs) *)
     result "prefs" (let ((st, evs), oc) = run p fuel init_prefs (nat_list sc) O [] [] in ({st with ran = []}, evs, oc)) ns
+  | ["prefs2"; sched] ->
+    let sc = ints sched in
+    let ns = List.length (List.filter (fun c -> c >= 1000) sc) in
+    result "prefs2" (let ((st, evs), oc) = run p fuel init_prefs2 (nat_list sc) O [] [] in ({st with ran = []}, evs, oc)) ns
+  | ["prefsj"; sched] ->
+    let sc = ints sched in
+    let ns = List.length (List.filter (fun c -> c >= 1000) sc) in
+    result "prefsj" (let ((st, evs), oc) = run p fuel init_prefsj (nat_list sc) O [] [] in ({st with ran = []}, evs, oc)) ns
+  | ["term"; sched] ->
+    let sc = ints sched in
+    let ns = List.length (List.filter (fun c -> c >= 1000) sc) in
+    (* the SetTerminate callbacks (payload 1) are internal to SelectServer: not reported by the harness *)
+    result "term" (let ((st, evs), oc) = run p fuel init_term (nat_list sc) O [] [] in
+                   ({st with ran = List.filter (fun ((_, i), _) -> int_of_nat i <> 1) st.ran}, evs, oc)) ns
   | ["ssd"; lims; rs; k; sched] ->
     let l = ints lims and r = ints rs and sc = ints sched in
     let ns = List.length (List.filter (fun c -> c >= 1000) sc) in
